@@ -11,12 +11,20 @@ Case:  {"pool": [{"id": str|None, "name": str, "aliases": [str]|None}, ...],    
   ["allnames", i] | ["names", i] | ["iter", i]      (iter = list(iter(store[i])), consumed at once)
   ["open", i]              iters.append(iter(store[i]))    (nothing consumed; iterators are numbered in opening order)
   ["next", k]              next(iters[k])  -> ["item", name] | ["stop"] (StopIteration)
+  ["table", i, ci, keys]   [store[i].find_column(k, case_insensitive=ci) for k in keys]  -> ["cols", [tag|None, ...]]
+  ["rename", i, q, n]      store[i].columns[q].name = n          (the column OBJECT changes: every schema listing it sees it)
+  ["setaliases", i, q, al] store[i].columns[q].aliases = al      (al a list or None)
+  ["insert", i, p, j, q]   store[i].columns.insert(p, store[j].columns[q])
+  ["del", i, p]            del store[i].columns[p]               (IndexError outside)
 "id": None means the FlatColumn is built without an identity (orso.tools.random_string supplies one;
 the observation records it).  A column object is identified by its tag (0 = an object the harness did
 not create).  Observed: {"ids": [...], "steps": [{"out": ..., "tags": [[tag]] (all schemas, after the call),
 "snap": full snapshot of all schemas, extras}], "final": [...], "pool_intact": bool}.
 Round 2: open/next make an iteration whose steps are interleaved with other calls (removals on the iterated schema in
-particular) part of the histories; the model keeps, per open iterator, the names it has still to yield."""
+particular) part of the histories; the model keeps, per open iterator, the names it has still to yield.
+Round 3: sessions - whole lookup tables taken before and after every kind of change to the same objects (pop_column, sums,
+the caller's in-place mutations of a column object or of a column list), so that state kept beside the columns (a memo, an
+index, a shared list) shows as a wrong table entry."""
 import itertools
 
 from vlib import coqlit as L
@@ -32,7 +40,9 @@ LEVEL_TEXT = ("Machine-checked Coq theorems over an executable model of Relation
               "access, iteration and all_column_names, removal deletes exactly the first column of that name, and over every history only the "
               "popped schema changes; an iterator opened on a schema yields exactly the column names present when it was opened, in "
               "positional order, whatever removals / sums / lookups / other iterators are interleaved with its steps, iterators modify no "
-              "schema, and `for n in s: if pred(n): s.pop_column(n)` removes exactly the selected columns. The model is tied to schema.py by running real RelationSchema objects through all pairs of a small scope "
+              "schema, and `for n in s: if pred(n): s.pop_column(n)` removes exactly the selected columns; after ANY history (earlier lookups, "
+              "removals, sums, the caller renaming a column object / assigning its aliases / editing a column list in place) every lookup "
+              "answers from the current value of the schema alone. The model is tied to schema.py by running real RelationSchema objects through all pairs of a small scope "
               "and random histories (unions, chains, lookups, removals, open iterators advanced step by step, all interleaved) and evaluating the model on the same histories inside Coq, "
               "with the column lists of ALL schemas compared after every call; a direct property oracle supplies replayable failing inputs.")
 LEVEL_NOTE = ("Trusted: Coq kernel + vm_compute; the hand-written model (validated, not verified, against CPython list / str semantics by the "
@@ -48,12 +58,14 @@ COQ_CHECKS = {"hist": "c17_check"}
 COQ_SHOW = {"hist": "c17_show"}
 RULE = ("histories over {s_i + s_j (result appended to the store, so chains and self-sums occur), find_column (both modes), column(int), "
         "column(str), pop_column, all_column_names, column_names, iteration (at once, and as it = iter(s) / next(it) interleaved with the "
-        "other calls)} on real RelationSchema objects built from a pool of FlatColumn "
+        "other calls), whole lookup tables over a key set, in-place mutation of a column object's name / aliases and of a schema's column "
+        "list by the caller} on real RelationSchema objects built from a pool of FlatColumn "
         "objects with colliding identities / names / aliases / case variants (the same object may occur several times and in several "
         "schemas); exhaustive over all pairs of column lists of length <= k over a 4-column pool followed by a fixed probe history "
         "(iterators opened before each removal and advanced after it), exhaustive remove-while-iterating loops (every column list of "
-        "length <= k+1, every subset of loop positions at which the yielded name is removed), then random histories and random "
-        "iterator-heavy histories; a case is non-trivial when a union had two non-empty operands or a lookup / removal returned a column; distinct "
+        "length <= k+1, every subset of loop positions at which the yielded name is removed), exhaustive lookup sessions (every column "
+        "list of length <= k+1, both lookup tables, removal of each of its names, both tables again), then random histories, random "
+        "iterator-heavy histories and random sessions (tables / mutation / tables, on pools with few and with many name collisions); a case is non-trivial when a union had two non-empty operands or a lookup / removal returned a column; distinct "
         "by canonical JSON of the case")
 TRUSTED = [
     "C17 model (coq/Model/C17.v): schemas as values (name, aliases, column list), a store of schemas for histories; Python list aliasing "
@@ -64,6 +76,8 @@ TRUSTED = [
 ASSUMPTIONS = [
     "identity and name comparison is an equivalence that coincides with equality (true for str; premise of the theorems that need it)",
     "lookup keys are str; column(i) is called with int or str",
+    "column objects are told apart by the harness tag (one tag per FlatColumn object); in-place mutation of an object is modelled as an "
+    "update of every column with that tag in every schema",
     "an open iterator is a value (the names not yet yielded): true of iter(list-of-names) as __iter__ builds it; the correspondence and the "
     "oracle compare every next() with that value, so an __iter__ that reads the live column list shows up as a failing history",
 ]
@@ -71,6 +85,9 @@ KNOWN_WITNESSES = {}
 
 # ----------------------------------------------------------------------------------------------
 # implementation runner
+
+
+_MUTATIONS = ("rename", "setaliases", "insert", "del")
 
 
 def _ascii_lower(s):
@@ -152,6 +169,21 @@ def observe(case):
                     out = ["item", next(iters[op[1]])]
                 except StopIteration:
                     out = ["stop"]
+            elif k == "table":
+                s = store[op[1]]
+                out = ["cols", [tag_opt(s.find_column(key, case_insensitive=True) if op[2] else s.find_column(key)) for key in op[3]]]
+            elif k == "rename":
+                store[op[1]].columns[op[2]].name = op[3]
+                out = ["done"]
+            elif k == "setaliases":
+                store[op[1]].columns[op[2]].aliases = None if op[3] is None else list(op[3])
+                out = ["done"]
+            elif k == "insert":
+                store[op[1]].columns.insert(op[2], store[op[3]].columns[op[4]])
+                out = ["done"]
+            elif k == "del":
+                del store[op[1]].columns[op[2]]
+                out = ["done"]
             else:
                 raise KeyError(k)
         except KeyError:
@@ -159,10 +191,16 @@ def observe(case):
         except Exception as e:  # the call raised
             out = ["raise", type(e).__name__]
         st = {"out": out, "tags": [[tag(c) for c in s.columns] for s in store], "snap": _snapshot(store, tag)}
+        if steps and st["tags"] == steps[-1]["tags"] and st["snap"] == steps[-1]["snap"]:
+            # same value as after the previous call: share the objects (memory only; thorough runs hold ~50k observations)
+            st["tags"], st["snap"] = steps[-1]["tags"], steps[-1]["snap"]
+        if k in _MUTATIONS:
+            st["pool_now"] = [[c.identity, c.name, None if c.aliases is None else list(c.aliases)] for c in pool]
         st.update(extra)
         steps.append(st)
     intact = all(c.identity == i and c.name == p["name"] and c.aliases == p["aliases"] for c, i, p in zip(pool, ids, case["pool"]))
-    return {"ids": ids, "steps": steps, "final": _snapshot(store, tag), "pool_intact": intact}
+    return {"ids": ids, "steps": steps, "final": _snapshot(store, tag), "pool_intact": intact,
+            "pool_final": [[c.identity, c.name, None if c.aliases is None else list(c.aliases)] for c in pool]}
 
 
 # ----------------------------------------------------------------------------------------------
@@ -180,7 +218,8 @@ def _bears(p, key, ci):
 
 
 def oracle(case, obs):
-    pool = case["pool"]
+    # the oracle's own picture of the column objects: name / aliases follow the caller's in-place assignments
+    pool = [dict(p, aliases=None if p["aliases"] is None else list(p["aliases"])) for p in case["pool"]]
     ids = obs["ids"]
     if len(ids) != len(pool):
         return "harness: identities not observed"
@@ -190,7 +229,7 @@ def oracle(case, obs):
     auto = [ids[k] for k, p in enumerate(pool) if p["id"] is None]
     if len(set(auto)) != len(auto) or any(not isinstance(a, str) or not a for a in auto):
         return f"columns created without an identity must receive distinct non-empty identities, got {auto}"
-    if not obs["pool_intact"]:
+    if not obs["pool_intact"] and not any(op[0] in ("rename", "setaliases") for op in case["ops"]):
         return "a column's identity / name / aliases changed during the history"
 
     def ident(t):
@@ -221,6 +260,44 @@ def oracle(case, obs):
             open_its[op[1]][1] = min(done + 1, len(names))
             if st["snap"] != exp:
                 return f"{where}: advancing an iterator modified a schema: expected {exp}, got {st['snap']}"
+            continue
+        if k in _MUTATIONS:
+            s = exp[op[1]]
+            n_cols = len(s["cols"])
+            want_out = ["done"]
+            if k in ("rename", "setaliases"):
+                if op[2] < n_cols:
+                    pool[s["cols"][op[2]] - 1]["name" if k == "rename" else "aliases"] = op[3] if k == "rename" or op[3] is None else list(op[3])
+                else:
+                    want_out = ["raise", "IndexError"]
+            elif k == "insert":
+                src = exp[op[3]]["cols"]
+                if op[4] < len(src):
+                    s["cols"] = s["cols"][:op[2]] + [src[op[4]]] + s["cols"][op[2]:]
+                else:
+                    want_out = ["raise", "IndexError"]
+            elif op[2] < n_cols:
+                s["cols"] = s["cols"][:op[2]] + s["cols"][op[2] + 1:]
+            else:
+                want_out = ["raise", "IndexError"]
+            if out != want_out:
+                return f"{where}: harness: in-place mutation expected {want_out}, got {out}"
+            want_pool = [[ids[t], p["name"], p["aliases"]] for t, p in enumerate(pool)]
+            if st["pool_now"] != want_pool:
+                return f"{where}: the column objects after the caller's assignment should be {want_pool}, they are {st['pool_now']}"
+            if st["snap"] != exp:
+                return f"{where}: schemas after the caller's in-place mutation: expected {exp}, got {st['snap']}"
+            continue
+        if k == "table":
+            s = exp[op[1]]
+            want = [next((t for t in s["cols"] if _bears(col(t), key, op[2])), None) for key in op[3]]
+            if out != ["cols", want]:
+                bad = [(key, w, g) for key, w, g in zip(op[3], want, out[1] if out[0] == "cols" else [out] * len(want)) if w != g]
+                return (f"{where}: every lookup must return the first column that CURRENTLY bears the key (None when none does), whatever was "
+                        f"looked up, removed or changed before; columns now {[(t, col(t)['name'], col(t)['aliases']) for t in s['cols']]}; "
+                        f"wrong entries (key, expected tag, got): {bad[:4]}")
+            if st["snap"] != exp:
+                return f"{where}: a lookup modified a schema: expected {exp}, got {st['snap']}"
             continue
         if k == "add":
             left, right = exp[op[1]], exp[op[2]]
@@ -294,6 +371,9 @@ def oracle(case, obs):
             return f"{where}: schemas after the call differ from what the property allows: expected {exp}, got {st['snap']}"
     if obs["final"] != exp:
         return f"final state of the schemas differs: expected {exp}, got {obs['final']}"
+    want_pool = [[ids[t], p["name"], p["aliases"]] for t, p in enumerate(pool)]
+    if obs["pool_final"] != want_pool:
+        return f"the column objects at the end should be {want_pool}, they are {obs['pool_final']}"
     return None
 
 
@@ -333,6 +413,10 @@ def _coq_out(out):
         return "(XItem %s)" % _T(out[1]) if isinstance(out[1], str) else "XBad"
     if out[0] == "stop":
         return "XStop"
+    if out[0] == "cols":
+        return "(XCols (%s : list (option N)))" % L.lst(L.opt(None if t is None else L.N(t)) for t in out[1])
+    if out[0] == "done":
+        return "XDone"
     return "XBad"  # any other exception: never equal to a model output
 
 
@@ -341,6 +425,16 @@ def _coq_op(op):
         return "(HOpen %s)" % L.nat(op[1])
     if op[0] == "next":
         return "(HNext %s)" % L.nat(op[1])
+    if op[0] == "table":
+        return "(HTable %s %s %s)" % (L.nat(op[1]), L.boolean(op[2]), _TL(op[3]))
+    if op[0] == "rename":
+        return "(HRename %s %s %s)" % (L.nat(op[1]), L.nat(op[2]), _T(op[3]))
+    if op[0] == "setaliases":
+        return "(HSetAliases %s %s %s)" % (L.nat(op[1]), L.nat(op[2]), L.opt(None if op[3] is None else _TL(op[3])))
+    if op[0] == "insert":
+        return "(HInsertFrom %s %s %s %s)" % tuple(L.nat(x) for x in op[1:5])
+    if op[0] == "del":
+        return "(HDelAt %s %s)" % (L.nat(op[1]), L.nat(op[2]))
     return "(HOp %s)" % _coq_plain_op(op)
 
 
@@ -366,6 +460,12 @@ def _lower_table(case):
     for op in case["ops"]:
         if op[0] == "find" and op[3]:
             strs.add(op[2])
+        elif op[0] == "table":
+            strs.update(op[3])
+        elif op[0] == "rename":
+            strs.add(op[3])
+        elif op[0] == "setaliases":
+            strs.update(op[3] or [])
     return sorted((s, s.lower()) for s in strs if s.lower() != _ascii_lower(s))
 
 
@@ -377,10 +477,17 @@ def to_coq(case, obs):
     schemas = L.lst("(%s, %s, (%s : list nat))" % (_T(s["name"]), _TL(s["aliases"]), L.lst(L.nat(k) for k in s["cols"]))
                     for s in case["schemas"])
     ops = L.lst(_coq_op(op) for op in case["ops"])
-    steps = L.lst("(%s, (%s : list (list N)))" % (_coq_out(st["out"]), L.lst(_NL(t) for t in st["tags"])) for st in obs["steps"])
+    # the column tags of all schemas are observed after every call; written as None when identical to the previous observation
+    # (initially: the schemas of the case), which steps_eqb expands again - same comparison, smaller terms
+    prev, parts = [[k + 1 for k in s["cols"]] for s in case["schemas"]], []
+    for st in obs["steps"]:
+        same = st["tags"] == prev
+        parts.append("(%s, %s)" % (_coq_out(st["out"]), "None" if same else "Some (%s : list (list N))" % L.lst(_NL(t) for t in st["tags"])))
+        prev = st["tags"]
+    steps = L.lst(parts)
     fin = L.lst("(%s, %s, %s)" % (_T(s["name"]), _TL(s["aliases"] or []), _NL(s["cols"])) for s in obs["final"])
     term = ("((%s : list (text * text)), (%s : list ccol), (%s : list (text * list text * list nat)), (%s : list (hop text)), "
-            "(%s : list (cout * list (list N))), (%s : list (text * list text * list N)))") % (tbl, pool, schemas, ops, steps, fin)
+            "(%s : list (cout * option (list (list N)))), (%s : list (text * list text * list N)))") % (tbl, pool, schemas, ops, steps, fin)
     return ("hist", term)
 
 
@@ -430,7 +537,8 @@ def _removed_position(it, before, after):
 
 
 def _classify(case, obs):
-    pool, ids = case["pool"], obs["ids"]
+    pool, ids = [dict(p) for p in case["pool"]], obs["ids"]
+    looked = {}     # schema index -> lookups already made on that very object ("cs" / "ci")
     n0 = len(case["schemas"])
     if any(p["aliases"] is None for p in pool):
         yield "pool:aliases-None"
@@ -443,6 +551,34 @@ def _classify(case, obs):
     for op, st in zip(case["ops"], obs["steps"]):
         k = op[0]
         yield "op:" + k
+        if k == "table":
+            if looked.get(op[1]):
+                yield "table:schema-looked-up-before"
+            if ("changed", op[1]) in looked:
+                yield "table:after-a-change-to-a-schema-looked-up-before" + ("(ci)" if op[2] else "(cs)")
+            looked.setdefault(op[1], set()).add("ci" if op[2] else "cs")
+            if any(t is not None for t in st["out"][1]) and any(t is None for t in st["out"][1]):
+                yield "table:hits-and-misses"
+        elif k == "find" and st["out"][0] == "col":
+            looked.setdefault(op[1], set()).add("ci" if op[3] else "cs")
+        elif k in ("rename", "setaliases") and st["out"] == ["done"]:
+            t = cur[op[1]][op[2]]
+            pool[t - 1]["name" if k == "rename" else "aliases"] = op[3]
+            for i2, c2 in enumerate(cur):
+                if t in c2 and looked.get(i2):
+                    looked[("changed", i2)] = True
+                    yield "mutate:column-object-of-a-schema-looked-up-before"
+            if sum(1 for c2 in cur if t in c2) > 1:
+                yield "mutate:column-object-shared-by-several-schemas"
+        elif k in ("insert", "del") and st["out"] == ["done"]:
+            if looked.get(op[1]):
+                looked[("changed", op[1])] = True
+                yield "mutate:column-list-of-a-schema-looked-up-before"
+        elif k == "pop" and st["out"] != ["col", None] and looked.get(op[1]):
+            looked[("changed", op[1])] = True
+            yield "pop:on-a-schema-looked-up-before" + ("(ci)" if "ci" in looked[op[1]] else "")
+            if st["out"][1] and (pool[st["out"][1] - 1]["aliases"] or []):
+                yield "pop:column-with-aliases-after-lookups"
         if k == "open":
             its.append([op[1], list(cur[op[1]]), 0, []])
         elif k == "next":
@@ -699,11 +835,111 @@ _XPOOL = [
     {"id": "p", "name": "B", "aliases": None},     # same identity, different object / name
     {"id": "r", "name": "b", "aliases": ["A"]},
 ]
+_WIDE = ["id", "Name", "NAME", "value", "key", "Key", "pk", "label", "x", "X", "y", "total", "Total", "é", "É", "İ", "ß"]
+
+
+def _random_session_case(rng, big=False):
+    """lookup tables / a change to the same objects / lookup tables again, repeated; pools with many collisions (as elsewhere) and
+    with few (a wider vocabulary, so that most names and aliases are distinct); generator-side bookkeeping only aims the changes"""
+    wide = rng.random() < 0.6
+    vocab = (lambda: rng.choice(_WIDE) if rng.random() < 0.8 else rng.choice(_COMMON)) if wide else (lambda: _name(rng))
+    npool = rng.randint(2, 7 if big else 5)
+    pool = []
+    for k in range(npool):
+        r = rng.random()
+        ident = None if r < 0.08 else rng.choice(_IDS) if r < 0.3 else "c%d" % k
+        r = rng.random()
+        aliases = None if r < 0.08 else [] if r < 0.35 else [vocab() for _ in range(rng.randint(1, 2))]
+        pool.append({"id": ident, "name": vocab(), "aliases": aliases})
+    schemas = []
+    for k in range(rng.randint(1, 3)):
+        m = rng.randint(1, min(npool, 5)) if rng.random() < 0.7 else rng.randint(1, 5)
+        cols = rng.sample(range(npool), m) if m <= npool and rng.random() < 0.7 else [rng.randrange(npool) for _ in range(m)]
+        schemas.append({"name": rng.choice(["s", "S", "t"]), "aliases": [], "cols": cols})
+    names = [p["name"] for p in pool]
+    aliases = [list(p["aliases"]) if p["aliases"] else [] for p in pool]
+    sim = [list(s["cols"]) for s in schemas]
+
+    def keys():
+        strs = sorted({x for k in range(npool) for x in aliases[k] + [names[k]]})
+        ks = rng.sample(strs, min(len(strs), 7))
+        ks += [_swapcase_variant(rng, rng.choice(strs)) for _ in range(2)] + ["zz"]
+        return ks
+
+    ops = []
+
+    def tables(i, both):
+        ks = keys()
+        if both:
+            ops.append(["table", i, True, ks])
+            ops.append(["table", i, False, ks])
+        else:
+            ops.append(["table", i, rng.random() < 0.75, ks])
+
+    focus = rng.randrange(len(sim))
+    tables(focus, rng.random() < 0.6)
+    if len(sim) > 1 and rng.random() < 0.4:
+        tables(rng.randrange(len(sim)), False)
+    for _ in range(rng.randint(2, 7 if big else 5)):
+        i = focus if rng.random() < 0.8 else rng.randrange(len(sim))
+        r = rng.random()
+        if r < 0.5 and sim[i]:
+            with_alias = [c for c in sim[i] if aliases[c]]
+            c = rng.choice(with_alias) if with_alias and rng.random() < 0.6 else rng.choice(sim[i])
+            ops.append(["pop", i, names[c]])
+            pos = next(p for p, d in enumerate(sim[i]) if names[d] == names[c])
+            del sim[i][pos]
+        elif r < 0.62 and sim[i]:
+            q = rng.randrange(len(sim[i]))
+            new = rng.choice(names + [a for al in aliases for a in al] + [vocab(), "renamed"])
+            ops.append(["rename", i, q, new])
+            names[sim[i][q]] = new
+        elif r < 0.72 and sim[i]:
+            q = rng.randrange(len(sim[i]))
+            al = rng.choice([None, [], [vocab()], [rng.choice(names)], [vocab(), vocab()]])
+            ops.append(["setaliases", i, q, al])
+            aliases[sim[i][q]] = list(al) if al else []
+        elif r < 0.80:
+            j = rng.randrange(len(sim))
+            if sim[j]:
+                q = rng.randrange(len(sim[j]))
+                p = rng.choice([0, len(sim[i]), rng.randint(0, len(sim[i]) + 1)])
+                ops.append(["insert", i, p, j, q])
+                sim[i].insert(p, sim[j][q])
+        elif r < 0.87:
+            p = rng.randrange(len(sim[i]) + 1) if rng.random() < 0.9 else len(sim[i]) + 2
+            ops.append(["del", i, p])
+            if p < len(sim[i]):
+                del sim[i][p]
+        else:
+            j = rng.randrange(len(sim))
+            ops.append(["add", i, j] if rng.random() < 0.6 else ["add", j, i])
+            a, b = (i, j) if ops[-1][1] == i else (j, i)
+            seen = [_ident(pool, c) for c in sim[a]]
+            new = list(sim[a])
+            for c in sim[b]:
+                if _ident(pool, c) not in seen:
+                    seen.append(_ident(pool, c))
+                    new.append(c)
+            sim.append(new)
+            if rng.random() < 0.6:
+                focus = i = len(sim) - 1
+        tables(i, rng.random() < 0.35)
+        r = rng.random()
+        if r < 0.25:
+            tables(rng.randrange(len(sim)), False)
+        elif r < 0.4:
+            ops.append([rng.choice(["names", "allnames", "iter"]), i])
+    return {"pool": pool, "schemas": schemas, "ops": ops}
+
+
+_XKEYS = ["a", "A", "b", "B", "zz"]
 _XPROBE = [["add", 0, 1], ["add", 1, 0], ["add", 2, 1], ["add", 0, 3], ["allnames", 2], ["find", 2, "a", False],
            ["find", 2, "b", True], ["find", 2, "B", False], ["find", 4, "zz", True],
+           ["table", 2, True, _XKEYS], ["table", 4, True, _XKEYS],
            ["open", 2], ["open", 2], ["next", 1], ["open", 4],
-           ["pop", 2, "a"], ["next", 0], ["next", 1], ["find", 2, "a", False],
-           ["pop", 4, "b"], ["next", 2], ["at", 4, -1], ["names", 0], ["iter", 1], ["names", 4],
+           ["pop", 2, "a"], ["next", 0], ["next", 1], ["find", 2, "a", False], ["table", 2, True, _XKEYS],
+           ["pop", 4, "b"], ["next", 2], ["table", 4, True, _XKEYS], ["at", 4, -1], ["names", 0], ["iter", 1], ["names", 4],
            ["next", 0], ["next", 1], ["next", 2], ["next", 0], ["next", 2]]
 
 
@@ -734,6 +970,19 @@ def exhaustive(tier):
                 yield {"pool": [dict(p) for p in _XPOOL],
                        "schemas": [{"name": "L", "aliases": ["l"], "cols": a}, {"name": "R", "aliases": [], "cols": b}],
                        "ops": [list(o) for o in _XPROBE]}
+        # lookup sessions: both tables, removal of one of the names, both tables again, a second removal, tables, names
+        for d in range(1, depth + 2):
+            for cols in itertools.product(range(4), repeat=d):
+                names = sorted({_XPOOL[c]["name"] for c in cols})
+                for n1 in names:
+                    for n2 in names:
+                        if n2 < n1:
+                            continue
+                        yield {"pool": [dict(p) for p in _XPOOL],
+                               "schemas": [{"name": "L", "aliases": ["l"], "cols": list(cols)}],
+                               "ops": [["table", 0, True, _XKEYS], ["table", 0, False, _XKEYS], ["pop", 0, n1],
+                                       ["table", 0, True, _XKEYS], ["table", 0, False, _XKEYS], ["pop", 0, n2],
+                                       ["table", 0, True, _XKEYS], ["table", 0, False, _XKEYS], ["allnames", 0]]}
         # remove-while-iterating: every column list of length <= depth+1, every subset of loop positions
         for d in range(depth + 2):
             for cols in itertools.product(range(4), repeat=d):
@@ -742,8 +991,12 @@ def exhaustive(tier):
 
     return it(), (f"all ordered pairs of column lists of length <= {depth} over a 4-column pool (shared identity, shared name, alias/case "
                   f"collisions), each followed by a {len(_XPROBE)}-call probe history (sums both ways, chains, lookups, removals, three iterators "
-                  f"opened before the removals and advanced after them); all remove-while-iterating loops over column lists of length <= "
+                  f"opened before the removals and advanced after them, whole lookup tables before and after each removal); all lookup sessions "
+                  f"(tables, removal, tables, removal, tables) over column lists of length <= {depth + 1} x pairs of their names; all remove-while-iterating loops over column lists of length <= "
                   f"{depth + 1} of that pool x every subset of loop positions at which the yielded name is removed")
+
+
+_CKEYS = ["id", "ID", "key", "KEY", "Key", "pk", "PK", "name", "Name", "NAME", "label", "LABEL", "value", "absent"]
 
 
 def corpus():
@@ -781,6 +1034,17 @@ def corpus():
          "ops": [["open", 0], ["open", 0], ["open", 1], ["next", 2], ["pop", 0, "t"]]
                 + [o for n in "pqrs" for o in (["next", 0], ["pop", 0, n])] + [["next", 0], ["next", 0], ["names", 0], ["open", 0], ["next", 3]]
                 + [["next", 1]] * 6},
+        # round 3: lookups (both modes) before and after removals of columns that have aliases / share a folded name with a later
+        # column; then the caller renames a column object, assigns aliases, edits the column list - the tables must follow
+        {"pool": [{"id": "i1", "name": "id", "aliases": ["key", "pk"]}, {"id": "i2", "name": "Name", "aliases": ["label"]},
+                  {"id": "i3", "name": "value", "aliases": []}, {"id": "i4", "name": "NAME", "aliases": ["Key"]}],
+         "schemas": [{"name": "t", "aliases": [], "cols": [0, 1, 2, 3]}, {"name": "u", "aliases": [], "cols": [3, 0]}],
+         "ops": [["table", 0, True, _CKEYS], ["table", 0, False, _CKEYS], ["table", 1, True, _CKEYS], ["pop", 0, "id"],
+                 ["table", 0, True, _CKEYS], ["table", 0, False, _CKEYS], ["table", 1, True, _CKEYS], ["pop", 0, "Name"],
+                 ["table", 0, True, _CKEYS], ["add", 0, 1], ["table", 2, True, _CKEYS], ["pop", 2, "NAME"], ["table", 2, True, _CKEYS],
+                 ["table", 0, True, _CKEYS], ["rename", 1, 1, "label"], ["table", 2, True, _CKEYS], ["table", 1, False, _CKEYS],
+                 ["setaliases", 0, 0, ["PK", "id"]], ["table", 0, True, _CKEYS], ["insert", 0, 0, 1, 0], ["table", 0, True, _CKEYS],
+                 ["del", 0, 0], ["del", 0, 7], ["table", 0, False, _CKEYS], ["setaliases", 0, 0, None], ["allnames", 0], ["names", 1]]},
     ]
 
 
@@ -790,14 +1054,24 @@ def generate(rng, tier):
         yield _random_case(rng, big=(i % 4 == 3))
     for i in range(400 if tier == "quick" else 5000):
         yield _random_iter_case(rng, big=(i % 4 == 3))
+    for i in range(350 if tier == "quick" else 5000):
+        yield _random_session_case(rng, big=(i % 4 == 3))
 
 
 def search(rng):
     while True:
-        if rng.random() < 0.4:
+        r = rng.random()
+        if r < 0.3:
+            yield _random_session_case(rng, big=rng.random() < 0.3)
+        elif r < 0.6:
             yield _random_iter_case(rng, big=rng.random() < 0.3)
         else:
             yield _random_case(rng, big=rng.random() < 0.3)
+
+
+def _store_positions(op):
+    """positions, inside an op, that hold an index into the store of schemas"""
+    return {"add": (1, 2), "next": (), "insert": (1, 3)}.get(op[0], (1,))
 
 
 def _indices_ok(case):
@@ -807,7 +1081,7 @@ def _indices_ok(case):
             if op[1] >= m:
                 return False
             continue
-        if any(x >= n for x in ([op[1], op[2]] if op[0] == "add" else [op[1]])):
+        if any(op[pos] >= n for pos in _store_positions(op)):
             return False
         if op[0] == "add":
             n += 1
@@ -823,7 +1097,7 @@ def _drop_op(case, i):
     if op[0] == "add":
         made = len(case["schemas"]) + sum(1 for o in ops[:i] if o[0] == "add")
         for o in rest:
-            for pos in ((1, 2) if o[0] == "add" else () if o[0] == "next" else (1,)):
+            for pos in _store_positions(o):
                 if o[pos] == made:
                     return None
                 if o[pos] > made:
@@ -850,3 +1124,7 @@ def shrink(case):
     for k, p in enumerate(case["pool"]):
         if p["aliases"]:
             yield dict(case, pool=case["pool"][:k] + [dict(p, aliases=[])] + case["pool"][k + 1:])
+    for i, op in enumerate(case["ops"]):
+        if op[0] == "table" and len(op[3]) > 1:
+            for j in range(len(op[3])):
+                yield dict(case, ops=case["ops"][:i] + [[op[0], op[1], op[2], op[3][:j] + op[3][j + 1:]]] + case["ops"][i + 1:])
